@@ -2,6 +2,7 @@ package main
 
 import (
 	"fmt"
+	"regexp"
 	"strings"
 
 	"golang.org/x/tools/go/ssa"
@@ -147,9 +148,16 @@ func checkC12(r *Run) {
 		}
 	}
 	if f := r.fn(rmS + "LoadLatestVersion"); f != nil {
+		want := rmS + "LoadVersion(param:rs, store/rootmulti.getLatestVersion(param:rs.DB))"
 		for _, ret := range Returns(f) {
 			t := P.TermAt(ret.Results[0], ret).String()
-			r.Check(t == rmS+"LoadVersion(param:rs, store/rootmulti.getLatestVersion(param:rs.DB))", "C12-R4", "LoadLatestVersion", P.InstrPos(ret), t, "LoadLatestVersion is "+t)
+			// `return rs.LoadVersion(v)` may be written out: nil exactly under LoadVersion(v) == nil
+			if t == "nil" {
+				if ok, _ := HasAtom(P.LocalGuards(ret), `^isnil\(`+regexp.QuoteMeta(want)+`\)$`); ok {
+					continue
+				}
+			}
+			r.Check(t == want, "C12-R4", "LoadLatestVersion", P.InstrPos(ret), t, "LoadLatestVersion is "+t)
 		}
 	}
 	if f := r.fn(rmS + "LastCommitID"); f != nil {
